@@ -24,8 +24,11 @@ class Expecter(object):
         if index >= 0:
             spawn._buffer = spawn.buffer_type()
             spawn._buffer.write(window[searcher.end:])
-            spawn.before = spawn._before.getvalue()[
-                0:-(len(window) - searcher.start)]
+            before = spawn._before.getvalue()
+            # Not a negative slice: the match may start at the very end of
+            # the window (zero-width), and [0:-0] would drop everything.
+            spawn.before = before[
+                0:len(before) - (len(window) - searcher.start)]
             spawn._before = spawn.buffer_type()
             spawn._before.write(window[searcher.end:])
             spawn.after = window[searcher.start:searcher.end]
